@@ -33,9 +33,13 @@ type DT struct {
 	Bits  int
 }
 
-func (d DT) String() string  { return d.Name }
-func (d DT) IsNumber() bool  { return d.Class == CInt || d.Class == CUint || d.Class == CFloat || d.Class == CComplex }
-func (d DT) IsOrd() bool     { return d.Class == CInt || d.Class == CUint || d.Class == CFloat || d.Class == CString }
+func (d DT) String() string { return d.Name }
+func (d DT) IsNumber() bool {
+	return d.Class == CInt || d.Class == CUint || d.Class == CFloat || d.Class == CComplex
+}
+func (d DT) IsOrd() bool {
+	return d.Class == CInt || d.Class == CUint || d.Class == CFloat || d.Class == CString
+}
 func (d DT) IsOrdNum() bool  { return d.Class == CInt || d.Class == CUint || d.Class == CFloat }
 func (d DT) IsFloat() bool   { return d.Class == CFloat }
 func (d DT) IsFloatCx() bool { return d.Class == CFloat || d.Class == CComplex }
